@@ -541,6 +541,15 @@ Array<int> String::chars() const
 
 void String::assign(const char* b, int n)
 {
+	size_t off = size_t(b) - size_t(str());
+	if (off <= size_t(_len)) // b points into this string: it fits, and may overlap
+	{
+		char* s = str();
+		memmove(s, s + off, n);
+		s[n] = '\0';
+		_len = n;
+		return;
+	}
 	resize(n, false);
 	char* s = str();
 	memcpy(s, b, _len);
@@ -559,6 +568,16 @@ String String::concat(const char* b, int n) const
 
 void String::append(const char* b, int n)
 {
+	size_t off = size_t(b) - size_t(str());
+	if (off <= size_t(_len)) // b points into this string, whose buffer may move: copy from the new buffer
+	{
+		int len = _len;
+		resize(len + n);
+		char* s = str();
+		memcpy(s + len, s + off, n);
+		s[len + n] = '\0';
+		return;
+	}
 	if(_len+n >= _size)
 		resize(_len+n);
 	else
